@@ -33,7 +33,7 @@ RULE = ('skeleton = one top-level IF-family ladder or SWITCH construct with ever
         '(f) malformed skeletons of 18 classes in random well-formed contexts; distinct = distinct structural signature (construct kinds, branch counts, selected '
         'branches, nesting; ids and literal values ignored) resp. (malformed class, depth, context); non-trivial = the skeleton contains a construct')
 ASSUMPTIONS = ['conditions are restricted to forms whose value the manual fixes: integer literals, comparisons =,==,<>,<,<=,>,>= of integers/floats of equal type, '
-               '=,==,<> of strings, &&, ||, ~~, fully parenthesised; IF expressions are integers in the 32-bit range',
+               '=,==,<> of strings, &&, ||, ~~, binary & with a mask, fully parenthesised; IF/ELSEIF operands are integers in -2^31..2^32-1 (the assembler reports a range overflow beyond; the manual gives no range) and include raw non-zero values whose low 8/16 bits are zero, the sign bit and both range ends',
                'CASE values have the type of the selector; floats are exactly representable',
                'symbols tested by IFDEF/IFNDEF are defined earlier in the source, on the command line (-D) or never; IFUSED/IFNUSED only in one-pass programs '
                'and only on constants that are never tested by IFDEF',
